@@ -199,6 +199,31 @@ impl ChildFut for ScriptFut<PlainND> {
     const TRACKED: bool = true;
 }
 
+/// The flavours of scripted merge source.
+pub trait ChildSrc: Stream<Item = Token> + Unpin + Sized + 'static {
+    fn make(id: Cid) -> Self;
+    fn cid(&self) -> Cid;
+    const TRACKED: bool;
+}
+impl ChildSrc for ScriptStream<Src> {
+    fn make(id: Cid) -> Self {
+        ScriptStream::new(id)
+    }
+    fn cid(&self) -> Cid {
+        self.id
+    }
+    const TRACKED: bool = true;
+}
+impl ChildSrc for NdStream<Src> {
+    fn make(id: Cid) -> Self {
+        NdStream::new(id)
+    }
+    fn cid(&self) -> Cid {
+        self.id
+    }
+    const TRACKED: bool = false;
+}
+
 macro_rules! relocate {
     () => {
         fn relocate(self: Box<Self>) -> Box<dyn Subject> {
@@ -363,13 +388,13 @@ impl<F: ChildFut> Subject for SOU<F> {
 }
 
 // ---- MergeBounded / MergeUnbounded -------------------------------------------------------------
-pub struct SMB(pub MergeBounded<ScriptStream<Src>>, pub usize);
-impl Subject for SMB {
+pub struct SMB<S: ChildSrc>(pub MergeBounded<S>, pub usize);
+impl<S: ChildSrc> Subject for SMB<S> {
     fn poll(&mut self, cx: &mut Context<'_>) -> PollOut {
         st(Pin::new(&mut self.0).poll_next(cx), Out::Tok)
     }
     fn push(&mut self, child: Cid, how: PushHow) -> PushOut {
-        let s = ScriptStream::<Src>::new(child);
+        let s = S::make(child);
         match how {
             PushHow::Back => {
                 self.0.push(s);
@@ -379,7 +404,7 @@ impl Subject for SMB {
                 Ok(()) => PushOut::Accepted,
                 Err(s) => {
                     let _cb = crate::alloc::CbGuard::new();
-                    PushOut::Refused(s.id, Box::new(s))
+                    PushOut::Refused(s.cid(), Box::new(s))
                 }
             },
             _ => {
@@ -398,13 +423,13 @@ impl Subject for SMB {
     relocate!();
 }
 
-pub struct SMU(pub MergeUnbounded<ScriptStream<Src>>);
-impl Subject for SMU {
+pub struct SMU<S: ChildSrc>(pub MergeUnbounded<S>);
+impl<S: ChildSrc> Subject for SMU<S> {
     fn poll(&mut self, cx: &mut Context<'_>) -> PollOut {
         st(Pin::new(&mut self.0).poll_next(cx), Out::Tok)
     }
     fn push(&mut self, child: Cid, how: PushHow) -> PushOut {
-        let s = ScriptStream::<Src>::new(child);
+        let s = S::make(child);
         match how {
             PushHow::Back | PushHow::TryBack => {
                 self.0.push(s);
@@ -722,6 +747,28 @@ fn build_coll<F: ChildFut>(subj: Subj, cfg: &Cfg) -> Box<dyn Subject> {
     }
 }
 
+fn build_merge<S: ChildSrc>(subj: Subj, cfg: &Cfg) -> Box<dyn Subject> {
+    if !S::TRACKED {
+        w(|x| x.untracked_srcs = true);
+    }
+    let ids = if subj == Subj::MB || cfg.ctor == 2 { initial_ids(cfg, Role::Source) } else { Vec::new() };
+    if !S::TRACKED {
+        w(|x| {
+            for &i in &ids {
+                x.children[i as usize].no_drop_glue = true;
+            }
+        });
+    }
+    if subj == Subj::MB {
+        let n = ids.len();
+        Box::new(SMB::<S>(sut(|| it(ids, cfg.inexact_iter).map(S::make).collect()), n))
+    } else if cfg.ctor == 2 {
+        Box::new(SMU::<S>(sut(|| it(ids, cfg.inexact_iter).map(S::make).collect())))
+    } else {
+        Box::new(SMU::<S>(sut(MergeUnbounded::new)))
+    }
+}
+
 /// Build the subject. Runs constructor code of the crate inside `sut`. May panic (e.g. D1) - the
 /// caller wraps it in catch_unwind.
 pub fn build(subj: Subj, cfg: &Cfg) -> Box<dyn Subject> {
@@ -732,17 +779,11 @@ pub fn build(subj: Subj, cfg: &Cfg) -> Box<dyn Subject> {
             2 => build_coll::<ScriptFut<PlainND>>(subj, cfg),
             _ => build_coll::<ScriptFut<Plain>>(subj, cfg),
         },
-        Subj::MB => {
-            let ids = initial_ids(cfg, Role::Source);
-            let n = ids.len();
-            Box::new(SMB(sut(|| it(ids, cfg.inexact_iter).map(ScriptStream::new).collect()), n))
-        }
-        Subj::MU => {
-            if cfg.ctor == 2 {
-                let ids = initial_ids(cfg, Role::Source);
-                Box::new(SMU(sut(|| it(ids, cfg.inexact_iter).map(ScriptStream::new).collect())))
+        Subj::MB | Subj::MU => {
+            if cfg.child_kind == 1 {
+                build_merge::<NdStream<Src>>(subj, cfg)
             } else {
-                Box::new(SMU(sut(MergeUnbounded::new)))
+                build_merge::<ScriptStream<Src>>(subj, cfg)
             }
         }
         Subj::BU => {
